@@ -7,6 +7,8 @@
 #include <yaclib/exe/executor.hpp>
 #include <yaclib/util/result.hpp>
 
+#include <yaclib_std/atomic>
+
 #include <exception>
 #include <stdexcept>
 #include <string>
@@ -205,6 +207,19 @@ class QueueExec final : public yaclib::IExecutor {
  private:
   std::string _name;
   std::vector<yaclib::Job*> _jobs;
+};
+
+// -------------------------------------------------------------------------- producer gate
+// The first visible operation of a producer thread: without it the producer's plain code before its first
+// library operation (storing the result) would always run before any consumer step, hiding early reads.
+struct Gate {
+  yaclib_std::atomic<int> flag{0};
+  Gate() {
+    vrt::NameField(&flag, "gate");
+  }
+  void Pass() {
+    flag.store(1, std::memory_order_relaxed);
+  }
 };
 
 // -------------------------------------------------------------------------- core field naming
